@@ -482,8 +482,45 @@ def boundary_ints(n: int):
 BAD_ARGS = [S('a'), S('1'), B(True), EMPTY, seq([I(1), I(2)]), Dd(1.5)]
 
 
+def corpus_cases():
+    """the failing inputs of the defects found so far (findings/C08.json), run first"""
+    r12 = seq([I(1), I(2)])
+    x, y = ('var', 5), ('var', 6)
+    T = B(True)
+    exprs = [
+        (F('subsequence', seq([I(1), I(2), I(3)]), Dd(1e30)), 'F08a'),
+        (F('subsequence', seq([I(1), I(2), I(3)]), Dd(-1e30), Dd(1e30)), 'F08a'),
+        (F('subsequence', seq([I(1), I(2), I(3)]), EMPTY), 'F08c'),
+        (F('subsequence', seq([I(1), I(2), I(3)]), I(1), EMPTY), 'F08c'),
+        (('for', [(5, r12), (6, ('map', seq([I(0), I(1)]), ('ar', '+', x, ('dot',)))), (5, I(7))], seq([x, y])), 'F08d'),
+        (('for', [(6, seq([('var', 0), ('var', 0)])), (0, I(5))], y), 'F08d'),
+        (F('index-of', seq([I(1), I(2), T]), T), 'F08e'),
+        (F('index-of', seq([I(1), I(2), T]), I(1)), 'F08e'),
+        (F('distinct-values', seq([I(1), T])), 'F08f'),
+        (F('distinct-values', seq([T, Dd(1), I(0), B(False), T, I(1)])), 'F08f'),
+        (F('remove', seq([I(1), I(2), I(3)]), T), 'F08g'),
+        (F('insert-before', seq([I(1), I(2), I(3)]), T, I(5)), 'F08g'),
+        (F('sum', seq([T, I(1)])), 'F08h'),
+        (F('sum', T), 'F08h'),
+        (F('max', seq([I(1), T])), 'F08i'),
+        (F('min', seq([T, Dd(2)])), 'F08i'),
+        (('some', [(5, ('filter', r12, T))], ('cmp', 'eq', ('dot',), I(7))), 'F08j'),
+        (('every', [(5, ('filter', r12, T))], ('cmp', 'eq', ('dot',), I(7))), 'F08j'),
+        (('some', [(5, ('map', r12, ('dot',)))], ('cmp', 'eq', ('pos',), I(2))), 'F08j'),
+        (F('insert-before', ('filter', r12, T), I(1), ('dot',)), 'F08k'),
+        (F('insert-before', ('filter', seq([I(1), I(2), I(3)]), T), I(3), seq([('dot',), ('pos',), ('last',)])), 'F08k'),
+        (('for', [(5, ('filter', ('to', I(3), I(7)), I(4))), (6, seq([('dot',), ('pos',), ('last',)]))], y), 'F08l'),
+        (('every', [(5, ('filter', ('to', I(3), I(7)), I(4))), (6, F('remove', I(1), ('last',)))], EMPTY), 'F08l'),
+        (seq([F('head', ('filter', ('to', I(2), I(2)), I(1))), ('pos',)]), 'F08m'),
+        (seq([F('exists', ('filter', ('to', I(2), I(3)), I(1))), ('pos',), ('last',), ('dot',)]), 'F08m'),
+        (seq([F('empty', ('map', ('to', I(2), I(3)), ('dot',))), ('pos',), ('last',), ('dot',)]), 'F08m'),
+        (('for', [(0, ('var', 0))], ('var', 0)), 'F08b'),
+    ]
+    return [Case(e, kind='corpus', note=n) for e, n in exprs]
+
+
 def probe_cases(thorough: bool):
-    cases = []
+    cases = corpus_cases()
     add = lambda e, note='': cases.append(Case(e, kind='probe', note=note))
     for name, items in probe_sequences():
         s = seq(items)
@@ -823,6 +860,111 @@ def loop_var_in_range(e) -> bool:
     return False
 
 
+MAX_LEN, MAX_ABS = 4000, 100000
+
+
+def bounds(e, env):
+    """sound upper bounds (length of the value, absolute value of its integers) of an expression;
+    env: {'vars': {id: (len, abs)}, 'dot': abs, 'size': n}.  Used to keep the random stream within
+    what the interpreted Lean driver evaluates without deep recursion."""
+    t = e[0]
+    if t == 'lit':
+        a = e[1]
+        return (1, abs(a[1]) if a[0] == 'i' else 8)
+    if t == 'empty':
+        return (0, 0)
+    if t == 'var':
+        return env['vars'].get(e[1], (4, 9))
+    if t == 'dot':
+        return (1, env['dot'])
+    if t in ('pos', 'last'):
+        return (1, env['size'])
+    if t == 'comma':
+        a, b = bounds(e[1], env), bounds(e[2], env)
+        return (a[0] + b[0], max(a[1], b[1]))
+    if t == 'to':
+        a, b = bounds(e[1], env), bounds(e[2], env)
+        return (a[1] + b[1] + 1, max(a[1], b[1]))
+    if t in ('filter', 'map'):
+        a = bounds(e[1], env)
+        inner = dict(env, dot=a[1], size=max(a[0], 1))
+        if t == 'filter':
+            bounds(e[2], inner)
+            return a
+        b = bounds(e[2], inner)
+        return (a[0] * b[0], b[1])
+    if t in ('for', 'some', 'every'):
+        env2 = dict(env, vars=dict(env['vars']))
+        n = 1
+        for vid, be in e[1]:
+            b = bounds(be, env2)
+            n *= max(b[0], 1)
+            env2['vars'][vid] = (1, b[1])
+        body = bounds(e[2], env2)
+        if t == 'for':
+            return (n * body[0], body[1])
+        return (min(n, MAX_LEN + 1) if n > MAX_LEN else 1, 1)
+    if t == 'f':
+        args = [bounds(a, env) for a in e[2]]
+        name = e[1]
+        a = args[0]
+        if name in ('count',):
+            return (1, a[0])
+        if name in ('sum',):
+            return (1, max(a[0] * a[1], args[1][1] if len(args) > 1 else 0))
+        if name in ('avg', 'min', 'max', 'round'):
+            return (1, a[1])
+        if name in ('empty', 'exists', 'not', 'boolean', 'string-join'):
+            return (1, 1)
+        if name == 'index-of':
+            return (a[0], a[0])
+        if name == 'insert-before':
+            return (a[0] + args[2][0], max(a[1], args[2][1]))
+        return a                      # subsequence, remove, reverse, head, tail, distinct-values, cardinality
+    if t in ('cmp', 'and', 'or'):
+        for k in e[1:]:
+            if isinstance(k, tuple):
+                bounds(k, env)
+        return (1, 1)
+    if t == 'ar':
+        a, b = bounds(e[2], env), bounds(e[3], env)
+        return (1, a[1] * b[1] if e[1] == '*' else a[1] + b[1])
+    if t == 'if':
+        bounds(e[1], env)
+        a, b = bounds(e[2], env), bounds(e[3], env)
+        return (max(a[0], b[0]), max(a[1], b[1]))
+    raise ValueError(e)
+
+
+class TooBig(Exception):
+    pass
+
+
+def within_bounds(e, ctx) -> bool:
+    """every subexpression stays below MAX_LEN items / MAX_ABS"""
+    item, pos, size, variables = ctx
+    env = {'vars': {k: (len(v), max([abs(a[1]) for a in v if a[0] == 'i'] + [1])) for k, v in variables.items()},
+           'dot': abs(item[1]) if item[0] == 'i' else 8, 'size': size}
+    # bounds() recurses through all subexpressions with the right environments; wrap it so that
+    # every intermediate result is checked
+    global bounds
+    plain = bounds
+    try:
+        def wrapped(x, env):
+            b = plain(x, env)
+            if b[0] > MAX_LEN or b[1] > MAX_ABS:
+                raise TooBig()
+            return b
+        bounds = wrapped
+        try:
+            wrapped(e, env)
+            return True
+        except TooBig:
+            return False
+    finally:
+        bounds = plain
+
+
 def random_cases(rng, n: int, maxdepth: int):
     g = Gen(rng)
     out = []
@@ -831,7 +973,13 @@ def random_cases(rng, n: int, maxdepth: int):
         e = g.top(d)
         if loop_var_in_range(e):
             continue
-        out.append(Case(e, g.ctx(), kind='random', strict=False))
+        if rng.random() < 0.3:
+            # canaries: focus and variables of the caller must be untouched after E
+            e = seq([e, ('dot',), ('pos',), ('last',), ('var', 0), ('var', 1)])
+        ctx = g.ctx()
+        if not within_bounds(e, ctx):
+            continue
+        out.append(Case(e, ctx, kind='random', strict=False))
     return out
 
 
@@ -1126,7 +1274,7 @@ def body(run: Run) -> int:
         cases = probe_cases(not run.quick)
         cases += equivalence_cases(rng, not run.quick)
         cases = [c for c in cases if c is not None]
-        cases += random_cases(rng, run.scale(6000, 120000), 6 if run.quick else 7)
+        cases += random_cases(rng, run.scale(15000, 120000), 6 if run.quick else 7)
         run.stats.rule = ('an evaluation = one expression in one dynamic context (item, position, size, variables) '
                           'evaluated by the Lean model, the Lean specification and the real engine under every '
                           'parser class that has the syntax (3.1, 3.0, 2.0); distinct = distinct (expression, '
